@@ -81,6 +81,11 @@ def menu(ctx: Ctx, rng: random.Random) -> list[dict]:
         # ... and whose bank-identifying fields are cut differently (both banks are listed)
         {"op": "iban.bank", "t": cps("DK" + gen.check_digits("DK", "10010000000018") + "10010000000018")},
         {"op": "iban.bank", "t": cps("FI" + gen.check_digits("FI", "10010000000018") + "10010000000018")},
+        # one BBAN text under two countries of equal IBAN length but different structure (check digits of each)
+        {"op": "iban.new", "t": cps("DE" + gen.check_digits("DE", "370400440532013000") + "370400440532013000"), "vb": False},
+        {"op": "iban.new", "t": cps("GB" + gen.check_digits("GB", "370400440532013000") + "370400440532013000"), "vb": False},
+        {"op": "iban.new", "t": cps("IE" + gen.check_digits("IE", "AIBK93115212345678") + "AIBK93115212345678"), "vb": False},
+        {"op": "iban.new", "t": cps("DE" + gen.check_digits("DE", "AIBK93115212345678") + "AIBK93115212345678"), "vb": False},
         # XK: in the IBAN table, not an ISO 3166 country - reading everything about an XK IBAN (its country
         # object too) must not teach the BIC side a new country
         {"op": "iban.parts", "t": cps("XK051212012345678906"), "ai": False},
